@@ -464,7 +464,30 @@ def correspondence(ctx):
     ex = res.exhaustive
     res.merge(selectsys.phase(ctx, PID))
     res.exhaustive = ex
+    res.oracle_failures += equal_queue_commits_witness()
     return res
+
+
+EQUAL_COMMITS_KEY = 'incoherent-queues-when-two-queued-prs-share-a-queue-commit'
+
+
+def equal_queue_commits_witness():
+    """The witness of the known finding EQUAL_COMMITS_KEY on the real BertE + mock host + real git (see
+    selectsys.witness_equal_queue_commits): two pull requests whose changes are the same commit (stacked pull
+    requests queued in the other order behave alike), both queued by the robot, every queue build SUCCESSFUL. The
+    property wants the whole queue merged (it is the longest all-green prefix); reported when nothing is."""
+    from . import selectsys
+    out = []
+    for order in ('ab', 'ba'):
+        status, records, ids = selectsys.witness_equal_queue_commits(order)
+        if status != 'Merged':
+            out.append({'key': EQUAL_COMMITS_KEY,
+                        'what': 'two pull requests on the same commit queued one after the other (ids in order %s), every '
+                                'queue build SUCCESSFUL: the queue evaluation answers %s and merges nothing, although the '
+                                'whole queue is an all-green prefix' % (order, status),
+                        'input': {'phase': 'equal-queue-commits', 'order': order, 'ids': ids},
+                        'observation': {'status': status, 'process_calls': len(records)}})
+    return out
 
 
 def search(ctx):
@@ -474,6 +497,11 @@ def search(ctx):
 
 def replay(ctx, payload):
     global USE_MODEL
+    if payload.get('failure', {}).get('input', {}).get('phase') == 'equal-queue-commits':
+        res = Result()
+        res.evaluations = 2
+        res.oracle_failures += equal_queue_commits_witness()
+        return res
     if payload.get('failure', {}).get('input', {}).get('phase') == 'selectsys':
         from . import selectsys
         return selectsys.replay(ctx, PID, payload['failure']['input'])
